@@ -12,6 +12,13 @@ let sum l =
   go 0 0 l
 let lensum l = Printf.sprintf "%d:%d" (List.length l) (sum l)
 
+(* decimal string -> N (offsets go up to usize::MAX, beyond OCaml's int) *)
+let n_of_string str =
+  let ten = n_of_int 10 in
+  let acc = ref (n_of_int 0) in
+  String.iter (fun c -> acc := N.add (N.mul !acc ten) (n_of_int (Char.code c - 48))) str;
+  !acc
+
 let names_e t = "ok " ^ tohex (escape (unhex (next t)))
 let names_u t =
   let s = unhex (next t) in
@@ -24,8 +31,8 @@ let read_case t =
   let b = Buffer.create 64 in
   Buffer.add_string b "ok";
   for _ = 1 to q do
-    let off = ni t in let len = ni t in
-    Buffer.add_string b (" " ^ lensum (read_at blobs (n_of_int off) (n_of_int len)))
+    let off = n_of_string (next t) in let len = n_of_string (next t) in
+    Buffer.add_string b (" " ^ lensum (read_at blobs off len))
   done;
   Buffer.add_string b (" dump=" ^ lensum (dump blobs));
   Buffer.contents b
